@@ -125,9 +125,14 @@ impl SurfaceProjection {
             SurfaceProjection::Normalized => InfoSubset::NORMALIZED_FORM,
             SurfaceProjection::Reading => InfoSubset::READING_FORM,
             SurfaceProjection::Dictionary => InfoSubset::DIC_FORM_WORD_ID,
-            SurfaceProjection::DictionaryAndSurface => InfoSubset::DIC_FORM_WORD_ID,
-            SurfaceProjection::NormalizedAndSurface => InfoSubset::NORMALIZED_FORM,
-            SurfaceProjection::NormalizedNouns => InfoSubset::NORMALIZED_FORM,
+            // these choose the form by the part of speech of the word
+            SurfaceProjection::DictionaryAndSurface => {
+                InfoSubset::DIC_FORM_WORD_ID | InfoSubset::POS_ID
+            }
+            SurfaceProjection::NormalizedAndSurface => {
+                InfoSubset::NORMALIZED_FORM | InfoSubset::POS_ID
+            }
+            SurfaceProjection::NormalizedNouns => InfoSubset::NORMALIZED_FORM | InfoSubset::POS_ID,
         }
     }
 }
